@@ -89,6 +89,16 @@ pub fn gen_conv_spec(t: &mut Tape<'_>, o: &ConvOpts) -> CmdSpec {
     }
     let (il, is, ov) = (root.settings.infer_long_args, root.settings.infer_subcommands, root.settings.args_override_self);
     spread(&mut root, il, is, ov);
+    // half of the trees leave it to the library to carry these settings down
+    if t.bool() {
+        fn inherit(c: &mut CmdSpec) {
+            for s in &mut c.subs {
+                s.settings.inherit_globals = true;
+                inherit(s);
+            }
+        }
+        inherit(&mut root);
+    }
     // (a global setting as well; set on the root only, in effect everywhere) values after `--` keep their delimiters
     if o.delimiters && t.chance(1, 3) {
         root.settings.dont_delimit_trailing_values = true;
